@@ -59,7 +59,6 @@ func OnStall(f func()) {
 func Bubble(t *testing.T, f func(t *testing.T)) {
 	stall.mu.Lock()
 	stall.n++
-	stall.verdict = nil
 	n := stall.n
 	stall.timer = time.AfterFunc(StallLimit, func() { stalled(n) })
 	tm := stall.timer
